@@ -16,7 +16,7 @@ EXTRA = {"C02/3": ["C06"], "C03/1": ["C05"], "C10/1": ["C05"], "C19/1": ["C13"],
          "C03/7": ["C10"], "C04/6": ["C01", "C10"], "C09/7": ["C15"], "C17/6": ["C04"],
          "C02/7": ["C05"], "C08/6": ["C14"], "C11/7": ["C01"],
          # round 4 (stored as 8, 9)
-         "C01/9": ["C05"], "C02/8": ["C05"], "C03/8": ["C05"], "C04/8": ["C06", "C17"], "C04/9": ["C17"], "C05/8": ["C14", "C10"], "C05/9": ["C03"],
+         "C01/9": ["C05"], "C02/8": ["C05"], "C03/8": ["C05"], "C04/8": ["C06", "C17"], "C04/9": ["C17"], "C05/8": ["C14", "C10"], "C05/9": ["C03"], "C03/9": ["C02"],
          "C07/8": ["C08", "C17"], "C08/8": ["C01"], "C09/9": ["C17", "C04"], "C10/8": ["C06"], "C10/9": ["C06"], "C13/9": ["C17"], "C17/8": ["C09"],
          "C17/9": ["C04"], "C19/9": ["C13"], "C11/9": ["C05"], "C19/8": ["C01"]}
 def sh(cmd, **kw):
